@@ -4,6 +4,7 @@
 -/
 import Lean.Data.Json
 import Yabgp.Model.Update
+import Yabgp.Model.Open
 import Yabgp.Model.Text
 
 namespace Yabgp.Glue
@@ -170,5 +171,66 @@ def readUpdMsg (j : Json) : Except String UpdMsg := do
     | .ok a => do (← asList a).mapM readPfx
     | .error _ => pure []
   pure { attr := attr, nlri := nlri, withdraw := wd }
+
+end Yabgp.Glue
+
+/-! ### OPEN and the small messages -/
+namespace Yabgp.Glue
+open Lean (Json)
+
+def triple (t : Nat × Nat × Nat) : Json := arr [nat t.1, nat t.2.1, nat t.2.2]
+
+def capaDictJson (d : CapaDict) : Json :=
+  let kvs : List (String × Json) :=
+    (if d.fourBytesAs then [("four_bytes_as", Json.bool true)] else []) ++
+    (match d.afiSafi with | some l => [("afi_safi", arr (l.map fun p => arr [nat p.1, nat p.2]))] | none => []) ++
+    (if d.routeRefresh then [("route_refresh", Json.bool true)] else []) ++
+    (if d.ciscoRouteRefresh then [("cisco_route_refresh", Json.bool true)] else []) ++
+    (if d.gracefulRestart then [("graceful_restart", Json.bool true)] else []) ++
+    (if d.ciscoMultiSession then [("cisco_multi_session", Json.bool true)] else []) ++
+    (if d.enhancedRouteRefresh then [("enhanced_route_refresh", Json.bool true)] else []) ++
+    (match d.addPath with | some l => [("add_path", arr (l.map triple))] | none => []) ++
+    (match d.llgr with | some l => [("LLGR", arr (l.map triple))] | none => []) ++
+    (match d.extNexthop with | some l => [("ext_nexthop", arr (l.map triple))] | none => []) ++
+    (if d.unknown.isEmpty then [] else
+      [("unknown", Json.arr ((d.unknown.toArray.qsort (fun a b => a.1 < b.1)).map fun kv => arr [nat kv.1, hex kv.2]))])
+  obj kvs
+
+def oerrJson : OErr → Json
+  | .hdr s => obj [("err", Json.str "hdr"), ("sub", nat s)]
+  | .open s => obj [("err", Json.str "open"), ("sub", nat s)]
+  | .other => obj [("err", Json.str "other")]
+
+def openResultJson : Except OErr OpenMsg → Json
+  | .ok m => obj [("ok", obj [("version", nat m.version), ("asn", nat m.asn), ("hold_time", nat m.holdTime),
+                              ("bgp_id", str (Text.ipv4Str m.bgpId)), ("capabilities", capaDictJson m.caps)])]
+  | .error e => oerrJson e
+
+def getOptArr (j : Json) (k : String) : Except String (Option (List Json)) :=
+  match j.getObjVal? k with
+  | .ok Json.null => pure none
+  | .ok v => do pure (some (← asList v))
+  | .error _ => pure none
+
+def readPair (j : Json) : Except String (Nat × Nat) := do
+  match (← asList j) with
+  | [a, b] => pure ((← a.getNat?), (← b.getNat?))
+  | _ => throw "bad pair"
+def readTriple (j : Json) : Except String (Nat × Nat × Nat) := do
+  match (← asList j) with
+  | [a, b, c] => pure ((← a.getNat?), (← b.getNat?), (← c.getNat?))
+  | _ => throw "bad triple"
+
+def readLocalCaps (j : Json) : Except String LocalCaps := do
+  let mp ← getOptArr j "afi_safi"
+  let mp ← match mp with | some l => do pure (some (← l.mapM readPair)) | none => pure none
+  let enh ← getOptArr j "ext_nexthop"
+  let enh ← match enh with | some l => do pure (some (← l.mapM readTriple)) | none => pure none
+  let ap := match (j.getObjVal? "add_path") >>= (·.getNat?) with | .ok n => some n | .error _ => none
+  pure { afiSafi := mp, ciscoRouteRefresh := getBoolD j "cisco_route_refresh" false,
+         routeRefresh := getBoolD j "route_refresh" false, fourBytesAs := getBoolD j "four_bytes_as" false,
+         extNexthop := enh, addPath := ap, enhancedRouteRefresh := getBoolD j "enhanced_route_refresh" false,
+         gracefulRestart := getBoolD j "graceful_restart" false,
+         ciscoMultiSession := getBoolD j "cisco_multi_session" false }
 
 end Yabgp.Glue
